@@ -12,7 +12,7 @@ BANK_KNOWN = {"ShadowByTag": "D14", "Ambiguous": "D14", "EmbedTagged": "D16", "E
 BANK_REC = ["Rec", "RecA", "PtrSelf", "PtrA", "PtrIntoSelf", "PtrTail1", "PtrC1", "HoldsRho",
             "Quad", "Trie", "ArrMap", "ArrA", "HoldsQuad", "QuadList"]
 BANK_BAD = ["Handler", "IntKeyed", "MyChan", "TwoHandlers", "Handler"]
-GEN = {"names": [], "redeclared": set(), "embedding": set(), "embeds": {}, "locals": []}
+GEN = {"names": [], "redeclared": set(), "embedding": set(), "embeds": {}, "locals": [], "families": {}, "known": {}}
 # the hand-written pair of the bank: two function-local `type Item struct` (harness/gotype.go)
 BANK_LOCALS = [["LocalItemA", "LocalItemB"]]
 
@@ -38,6 +38,8 @@ def harness_files(seed, tier):
     GEN["redeclared"] = {x["name"] for x in infos if x["redeclared"]}
     GEN["embedding"] = {x["name"] for x in infos if x["embeds"]}
     GEN["embeds"] = {x["name"]: list(x["embeds"]) for x in infos}
+    GEN["families"] = {k: list(v) for k, v in gen_decls.FAMILIES.items()}
+    GEN["known"] = {n: "D14" for n in GEN["families"].get("clash_d14", [])}
     return {"zz_gen_types.go": src}
 # ---------------------------------------------------------------------------------------------
 # TypeSchemas entries that ACCEPT every encoding of the type they override (C04's `EntriesAccept`, C13's shared options)
@@ -140,6 +142,50 @@ def same_name_case(rng, used):
     t = {"k": "struct", "fields": fields}
     if rng.random() < 0.3:
         t = {"k": rng.choice(["slice", "ptr", "map"]), "key": "string", "e": t}
+    return t
+
+
+def family_case(rng, used, weights):
+    """A declared type of one of gen_decls.gen_families' families (`weights`: family -> relative share), by value, behind a pointer,
+    in a container, or as one or two fields of a struct. None if the run has no such declarations."""
+    fams = [f for f in sorted(weights) if GEN["families"].get(f)]
+    if not fams:
+        return None
+    f = rng.choices(fams, [weights[x] for x in fams])[0]
+    nm = rng.choice(GEN["families"][f])
+    used.add(nm)
+    N = {"k": "named", "name": nm}
+    r = rng.random()
+    if r < 0.5:
+        return N
+    if r < 0.75:
+        return rng.choice([{"k": "ptr", "e": N}, {"k": "slice", "e": N}, {"k": "map", "key": "string", "e": N}, {"k": "array", "n": 2, "e": N},
+                           {"k": "slice", "e": {"k": "ptr", "e": N}}])
+    fields = [{"name": "P", "tag": rng.choice(['json:"p"', "", 'json:"p,omitempty"']), "t": rng.choice([N, {"k": "ptr", "e": N}])}]
+    if rng.random() < 0.5:
+        fields.append({"name": "Q", "tag": 'json:"q"', "t": rng.choice([{"k": "slice", "e": N}, N, gen_type(rng, 1, used, allow_known=0.0)])})
+    return {"k": "struct", "fields": fields}
+
+
+def repeated_named_case(rng, used, names):
+    """One declared type several times in one type, through different wrappers, in every order (what is learnt about a type at its
+    first occurrence must not colour the later ones): a struct of 2-4 fields, each one of N, *N, []N, []*N, map[string]N,
+    map[string]*N, [2]N, **N, struct{In N}."""
+    nm = rng.choice(names)
+    N = {"k": "named", "name": nm}
+    wraps = [N, {"k": "ptr", "e": N}, {"k": "slice", "e": N}, {"k": "slice", "e": {"k": "ptr", "e": N}}, {"k": "map", "key": "string", "e": N},
+             {"k": "map", "key": "string", "e": {"k": "ptr", "e": N}}, {"k": "array", "n": 2, "e": N}, {"k": "ptr", "e": {"k": "ptr", "e": N}},
+             {"k": "struct", "fields": [{"name": "In", "tag": 'json:"in"', "t": N}]}]
+    ws = [rng.choice(wraps) for _ in range(rng.randint(2, 4))]
+    tags = ['json:"%s"', 'json:"%s,omitempty"', "", 'json:"%s,omitzero"']
+    fields = []
+    for i, w in enumerate(ws):
+        tg = rng.choice(tags)
+        fields.append({"name": "F%d" % i, "tag": (tg % ("f%d" % i)) if "%s" in tg else tg, "t": w})
+    t = {"k": "struct", "fields": fields}
+    if rng.random() < 0.3:
+        t = {"k": rng.choice(["slice", "ptr"]), "e": t}
+    used.add(nm)
     return t
 
 
